@@ -504,6 +504,7 @@ class Fresh(object):
         self.modname = modname
         self.text = MODULES[modname]['text']
         self.d0 = abs_dict(asn1tools.parse_string(self.text))
+        self.pristine, self.used = None, 0
         self.out = {}     # (codec, ne) -> {'st','msg','beh'(full)}
         self.bytes = {}   # (codec, ne) -> {(type,i): bytes}
         # pass 1: own behaviour (gives the reference encodings); pass 2 adds decode-of-reference lines
@@ -575,13 +576,27 @@ def pformat_eval(d):
         os.rmdir(tmp)
 
 
+REPARSE_FIRST = int(os.environ.get('VERIF_C13_REPARSE', '12'))
+
+
 def replay(case, fresh, snaps, full=False):
     import asn1tools
     modname = case['mod']
     text = MODULES[modname]['text']
-    d = asn1tools.parse_string(text)
+    # the first histories of a module start from a parse of their own; the others from a deep copy
+    # of one more parse (the parser output is plain data without sharing: d0h / alias are checked)
+    fresh.used += 1
+    if fresh.used <= REPARSE_FIRST or fresh.pristine is None:
+        d = asn1tools.parse_string(text)
+        if fresh.pristine is None:
+            fresh.pristine = copy.deepcopy(d)
+        src = 'parse'
+    else:
+        d = copy.deepcopy(fresh.pristine)
+        src = 'copy'
     snap = abs_dict(d)
-    line = {'cid': case['cid'], 'ev': 'hist', 'mod': modname, 'hist': case['hist'], 'd0h': snaps.put(snap), 'steps': []}
+    line = {'cid': case['cid'], 'ev': 'hist', 'mod': modname, 'hist': case['hist'], 'src': src,
+            'd0h': snaps.put(snap), 'steps': []}
     objs = []
     for step in case['hist']:
         rec = {'a': step['a'], 'codec': step.get('codec', ''), 'ne': bool(step.get('ne', False)),
